@@ -5,6 +5,9 @@
 //        foreign thread (F); script = outcomes for the successive send calls on that connection:
 //        a<k> accept at most k bytes, w would-block; after the script every call is passed through
 //     -> X bytes=<received> content=<1|0> calls=<send calls until everything was delivered> p=<value|R|P per write> twice=<promises settled more than once>
+//   F <L|F> <reader delay ms> <r<size>|f<size>,...>   memory buffers (r) and file buffers (f, sent with sendfile) mixed; the peer starts reading
+//        after the delay, so large buffers really block
+//     -> F bytes=... content=... calls=... p=... twice=...  (as X)
 //   E <busy ms> <size>                    A's write of <size> bytes is blocked; while the worker is busy for <busy ms> in another connection's
 //        handler, A sends bytes and starts reading, so its descriptor becomes readable and writable in the same poll result
 //     -> E bytes=<received> content=<1|0> p=<value|R|P>
@@ -79,6 +82,8 @@ std::string pattern(size_t idx, size_t size)
 }
 
 std::vector<size_t> g_sizes;
+std::vector<char> g_kinds; // 'r' memory buffer, 'f' file buffer (sendfile)
+std::vector<std::string> g_files;
 bool g_foreign = false;
 
 class WriteHandler : public Tcp::Handler
@@ -100,7 +105,10 @@ public:
                 for (size_t i = 0; i < g_sizes.size(); ++i)
                 {
                     std::string data = pattern(i, g_sizes[i]);
-                    transport()->asyncWrite(peer->fd(), RawBuffer(data, data.size()), MSG_NOSIGNAL)
+                    auto written = (i < g_kinds.size() && g_kinds[i] == 'f')
+                        ? transport()->asyncWrite(peer->fd(), FileBuffer(g_files[i]), MSG_NOSIGNAL)
+                        : transport()->asyncWrite(peer->fd(), RawBuffer(data, data.size()), MSG_NOSIGNAL);
+                    written
                         .then(
                             [i](ssize_t v) {
                                 std::lock_guard<std::mutex> g(g_res.m);
@@ -164,7 +172,49 @@ static std::string handle(const std::string& line)
     g_script.counting = true;
     g_script.eagain_seen = false;
 
-    if (t[0] == "X")
+    g_kinds.clear();
+    g_files.clear();
+    if (t[0] == "F")
+    {
+        // F <L|F> <reader delay ms> <r<size>|f<size>,...>: memory and file buffers mixed, the peer starts reading late
+        g_foreign = t[1] == "F";
+        g_sizes.clear();
+        std::string cur;
+        for (char c : t[3] + ",")
+        {
+            if (c == ',')
+            {
+                if (!cur.empty())
+                {
+                    g_kinds.push_back(cur[0]);
+                    g_sizes.push_back(static_cast<size_t>(atoll(cur.c_str() + 1)));
+                }
+                cur.clear();
+            }
+            else
+                cur.push_back(c);
+        }
+        for (size_t i = 0; i < g_sizes.size(); ++i)
+        {
+            g_files.emplace_back();
+            if (g_kinds[i] != 'f')
+                continue;
+            char name[] = "/tmp/pv_transport_XXXXXX";
+            int tf      = mkstemp(name);
+            std::string data = pattern(i, g_sizes[i]);
+            size_t off = 0;
+            while (off < data.size())
+            {
+                ssize_t k = ::write(tf, data.data() + off, data.size() - off);
+                if (k <= 0)
+                    break;
+                off += static_cast<size_t>(k);
+            }
+            ::close(tf);
+            g_files[i] = name;
+        }
+    }
+    else if (t[0] == "X")
     {
         g_foreign = t[1] == "F";
         g_sizes   = parse_sizes(t[2]);
@@ -213,8 +263,10 @@ static std::string handle(const std::string& line)
 
     int a = pv::connect_loopback(port);
     pv::send_all(a, "go\n");
-    if (t[0] == "X")
+    if (t[0] == "X" || t[0] == "F")
     {
+        if (t[0] == "F")
+            std::this_thread::sleep_for(std::chrono::milliseconds(atoi(t[2].c_str())));
         std::string got;
         pv::read_until(a, got, [&](const std::string& b) { return b.size() >= total; }, 4000);
         // let the promises settle
@@ -231,7 +283,7 @@ static std::string handle(const std::string& line)
             std::this_thread::sleep_for(std::chrono::milliseconds(5));
         }
         g_script.counting = false;
-        os << "X bytes=" << got.size() << " content=" << (got == expected ? 1 : 0) << " calls=" << g_script.calls.load() << " p=";
+        os << t[0] << " bytes=" << got.size() << " content=" << (got == expected ? 1 : 0) << " calls=" << g_script.calls.load() << " p=";
         std::lock_guard<std::mutex> g(g_res.m);
         int twice = 0;
         for (size_t i = 0; i < g_res.value.size(); ++i)
@@ -314,6 +366,9 @@ static std::string handle(const std::string& line)
         ::close(b);
     }
     ::close(a);
+    for (auto& f : g_files)
+        if (!f.empty())
+            ::unlink(f.c_str());
     listener.shutdown();
     pv_hooks::send_fn = nullptr;
     return os.str();
